@@ -28,7 +28,8 @@ META = {
                    "_set_event_data / get_type / add_type / retry_decode on symbolic frames",
     "bounds": ["all 2^23 frames with bit 16 = 0, no map", "device/instance frames x map {absent, one entry "
                "with symbolic (short address, instance number, type 0..31)}",
-               "map entries created through add_type with int, DeviceShort/InstanceNumber and module arguments"],
+               "map entries created through add_type with int, DeviceShort/InstanceNumber and module arguments",
+               "thorough: a second symbolic entry added first (keys may coincide: the later add_type wins)"],
     "stubs": ["isinstance/int shims", "SymDict registries", "SymKeyDict as the mapper's dict in symbolic mode"],
     "outside": ["maps with more than one entry (lookups are independent per key)",
                 "instance types > 31 in a map", "maps whose get_type raises"],
@@ -119,9 +120,17 @@ def h_nomap(ctx):
     return r.scheme + ":" + name
 
 
-def _mkmap(ctx):
+def _mkmap(ctx, extra=0):
     m = helpers.DeviceInstanceTypeMapper()
     m._mapping = newdict(ctx)
+    others = []
+    for e in range(extra):
+        # other entries (symbolic; NOT assumed distinct from the entry under test: a later
+        # add_type for the same key must win)
+        xa, xi, xt = ctx.fresh("xa%d" % e, 0, 63), ctx.fresh("xi%d" % e, 0, 31), ctx.fresh("xt%d" % e, 0, 31)
+        m.add_type(short_address=xa, instance_number=xi, instance_type=xt)
+        others.append((xa, xi, xt))
+    m.others = others
     if not ctx.fresh_bool("has_entry"):
         return m, None
     ka = ctx.fresh("ka", 0, 63)
@@ -144,10 +153,11 @@ def _mkmap(ctx):
     return m, (ka, ki, t)
 
 
-def h_map(ctx):
+def h_map(ctx, extra=0):
     x = ctx.fresh("x", 0, 0xFFFFFF)
     ctx.assume(E.eq(x & 0x818000, 0x008000))      # device/instance scheme
-    m, entry = _mkmap(ctx)
+    m, entry = _mkmap(ctx, extra)
+
     f = F.ForwardFrame(24, x)
     st, ev = call(C.from_frame, f, dev_inst_map=m)
     if st == "exc":
@@ -155,6 +165,12 @@ def h_map(ctx):
         return "exc"
     r = ref.decode_source(x)
     hit = entry is not None and bool(E.and_(E.eq(entry[0], r.short), E.eq(entry[1], r.inst_number)))
+    if not hit:
+        # an earlier entry may resolve the frame instead (the last matching one wins)
+        for xa, xi, xt in reversed(getattr(m, "others", [])):
+            if bool(E.and_(E.eq(xa, r.short), E.eq(xi, r.inst_number))):
+                hit, entry = True, (xa, xi, xt)
+                break
     # what an ambiguous decode + later retry gives
     st0, amb = call(C.from_frame, F.ForwardFrame(24, x))
     if st0 == "exc" or type(amb).__name__ != "AmbiguousInstanceType":
@@ -198,4 +214,7 @@ def h_map(ctx):
 
 
 def cases(tier):
-    return [Case("nomap", h_nomap, {}), Case("map", h_map, {})]
+    cs = [Case("nomap", h_nomap, {}), Case("map", h_map, {})]
+    if tier == "thorough":
+        cs.append(Case("map-2", h_map, {"extra": 1}))
+    return cs
